@@ -16,6 +16,8 @@ HERE = os.path.dirname(os.path.abspath(__file__))
 VERIF = os.path.dirname(HERE)
 OUT = os.path.join(VERIF, "lean", "Gpa", "Generated", "Facts.lean")
 
+CONST = "proxy_agent/src/common/constants.rs"
+E2E = ["C01", "C03", "C04", "C05", "C07", "C10", "C11", "C14", "C15"]
 # name, file, regex (group 1 = value), kind, default, properties that rely on it
 FACTS = [
     ("healthErrorThreshold", "proxy_agent_extension/src/common.rs",
@@ -24,6 +26,24 @@ FACTS = [
      r"const\s+MAX_CONSECUTIVE_COUNT\s*:\s*u32\s*=\s*(\d[\d_]*)\s*;", "nat", 10000, ["C20"]),
     ("stateNoteMax", "proxy_agent_extension/src/service_main.rs",
      r"const\s+MAX_STATE_COUNT\s*:\s*u32\s*=\s*(\d[\d_]*)\s*;", "nat", 120, ["C20"]),
+    # endpoints (constants.rs)
+    ("wireServerIp", CONST, r'pub const WIRE_SERVER_IP\s*:\s*&str\s*=\s*"([^"]*)"\s*;', "str", "168.63.129.16", E2E),
+    ("wireServerPort", CONST, r"pub const WIRE_SERVER_PORT\s*:\s*u16\s*=\s*(\d+)(?:u16)?\s*;", "nat", 80, E2E),
+    ("gaPluginIp", CONST, r'pub const GA_PLUGIN_IP\s*:\s*&str\s*=\s*"([^"]*)"\s*;', "str", "168.63.129.16", E2E),
+    ("gaPluginPort", CONST, r"pub const GA_PLUGIN_PORT\s*:\s*u16\s*=\s*(\d+)(?:u16)?\s*;", "nat", 32526, E2E),
+    ("imdsIp", CONST, r'pub const IMDS_IP\s*:\s*&str\s*=\s*"([^"]*)"\s*;', "str", "169.254.169.254", E2E),
+    ("imdsPort", CONST, r"pub const IMDS_PORT\s*:\s*u16\s*=\s*(\d+)(?:u16)?\s*;", "nat", 80, E2E),
+    ("proxyAgentIp", CONST, r'pub const PROXY_AGENT_IP\s*:\s*&str\s*=\s*"([^"]*)"\s*;', "str", "127.0.0.1", E2E),
+    ("proxyAgentPort", CONST, r"pub const PROXY_AGENT_PORT\s*:\s*u16\s*=\s*(\d+)(?:u16)?\s*;", "nat", 3080, E2E),
+    ("authorizationScheme", CONST, r'pub const AUTHORIZATION_SCHEME\s*:\s*&str\s*=\s*"([^"]*)"\s*;', "str", "Azure-HMAC-SHA256", E2E),
+    ("claimsHeaderName", CONST, r'pub const CLAIMS_HEADER\s*:\s*&str\s*=\s*"([^"]*)"\s*;', "str", "x-ms-azure-host-claims", E2E),
+    ("authorizationHeaderName", CONST, r'pub const AUTHORIZATION_HEADER\s*:\s*&str\s*=\s*"([^"]*)"\s*;', "str", "x-ms-azure-host-authorization", E2E),
+    ("dateHeaderName", CONST, r'pub const DATE_HEADER\s*:\s*&str\s*=\s*"([^"]*)"\s*;', "str", "x-ms-azure-host-date", E2E),
+    # body limits (proxy_server.rs): LOW = 1024 * 100 ; LARGE = 1024 * LOW
+    ("requestBodyLowLimit", "proxy_agent/src/proxy/proxy_server.rs",
+     r"const REQUEST_BODY_LOW_LIMIT_SIZE\s*:\s*usize\s*=\s*([0-9_ *]+);", "prod", 102400, ["C15", "C14", "C01"]),
+    ("requestBodyLargeFactor", "proxy_agent/src/proxy/proxy_server.rs",
+     r"const REQUEST_BODY_LARGE_LIMIT_SIZE\s*:\s*usize\s*=\s*([0-9_ *]+)\*\s*REQUEST_BODY_LOW_LIMIT_SIZE\s*;", "prod", 1024, ["C15"]),
 ]
 
 # structural anchors: pattern must be present (count >= 1); no value
@@ -49,11 +69,17 @@ def parse_value(kind, text):
         return int(text.replace("_", ""))
     if kind == "str":
         return text
+    if kind == "prod":
+        v = 1
+        for part in text.replace("_", "").split("*"):
+            if part.strip():
+                v *= int(part.strip())
+        return v
     raise ValueError(kind)
 
 
 def lean_value(kind, v):
-    if kind == "nat":
+    if kind in ("nat", "prod"):
         return "Nat", str(v)
     if kind == "str":
         return "String", json.dumps(v)
@@ -109,6 +135,8 @@ def render(facts):
     for name, f in facts.items():
         ty, v = lean_value(f["kind"], f["value"])
         lines.append(f"def {name} : {ty} := {v}")
+    if "requestBodyLargeFactor" in facts:
+        lines.append("def requestBodyLargeLimit : Nat := requestBodyLargeFactor * requestBodyLowLimit")
     lines.append("end Gpa.Facts")
     return "\n".join(lines) + "\n"
 
